@@ -81,21 +81,21 @@ type Report struct {
 	Rule     string
 	T0       time.Time
 
-	Evaluations       int
-	DistinctNontriv   int
-	States            int
-	Transitions       int
-	TracesValidated   int
-	DistinctOutcomes  int
-	BoundCompleted    string
-	CapsHit           []string
-	Exhaustive        bool
-	Samples           []any
-	Assumptions       []string
-	Extra             map[string]any
-	violations        map[string]*reported
-	order             []string
-	HarnessErrs       []string
+	Evaluations      int
+	DistinctNontriv  int
+	States           int
+	Transitions      int
+	TracesValidated  int
+	DistinctOutcomes int
+	BoundCompleted   string
+	CapsHit          []string
+	Exhaustive       bool
+	Samples          []any
+	Assumptions      []string
+	Extra            map[string]any
+	violations       map[string]*reported
+	order            []string
+	HarnessErrs      []string
 }
 
 type reported struct {
@@ -154,16 +154,16 @@ func (r *Report) Finish() {
 		unknown = append(unknown, key)
 	}
 	cov := map[string]any{
-		"evaluations":                   r.Evaluations,
-		"distinct_nontrivial":           r.DistinctNontriv,
-		"rule":                          r.Rule,
-		"samples":                       r.Samples,
-		"exhaustive":                    r.Exhaustive && len(r.CapsHit) == 0,
-		"distinct_outcomes":             r.DistinctOutcomes,
-		"bound_completed":               r.BoundCompleted,
-		"caps_hit":                      nonNil(r.CapsHit),
-		"known_findings_seen":           nonNil(knownHit),
-		"violation_keys":                nonNil(unknown),
+		"evaluations":         r.Evaluations,
+		"distinct_nontrivial": r.DistinctNontriv,
+		"rule":                r.Rule,
+		"samples":             r.Samples,
+		"exhaustive":          r.Exhaustive && len(r.CapsHit) == 0,
+		"distinct_outcomes":   r.DistinctOutcomes,
+		"bound_completed":     r.BoundCompleted,
+		"caps_hit":            nonNil(r.CapsHit),
+		"known_findings_seen": nonNil(knownHit),
+		"violation_keys":      nonNil(unknown),
 	}
 	if r.Level == "model_checking" {
 		cov["states"] = r.States
